@@ -29,6 +29,7 @@ func init() { register("C10", runC10) }
 const c10Known = "C10-control-comment-in-excluded-text"
 const c10KnownColumn = "C10-directive-column"
 const c10KnownScalar = "C10-length-in-block-scalar"
+const c10KnownLong = "C10-long-blanked-line"
 
 // ---------------------------------------------------------------------------------------------
 // The documented meaning (mirror of coq/Model/MaskSpec.v) and the known-finding class predicate.
